@@ -33,6 +33,7 @@ import (
 	_ "verif/harness/c06"
 	_ "verif/harness/c07"
 	_ "verif/harness/c08"
+	_ "verif/harness/c09"
 	_ "verif/harness/c10"
 	_ "verif/harness/c11"
 )
